@@ -965,6 +965,9 @@ func (n *node) Kill(pid gen.PID) error {
 	case int32(gen.ProcessStateWaitResponse), int32(gen.ProcessStateRunning):
 		// do not unregister process until its goroutine stopped
 		return nil
+	case int32(gen.ProcessStateZombee):
+		// already being killed: its goroutine (or the first killer) terminates it
+		return nil
 	case int32(gen.ProcessStateTerminated):
 		atomic.StoreInt32(&p.state, int32(gen.ProcessStateTerminated))
 		return nil
